@@ -367,13 +367,13 @@ class ABCCost():
     ''' The derivative of cost function on scalar. '''
     if x_l == x_h:
       return 0
-    return -c*b*ABCCost.q(x, x_l, x_h, a)**(b-1)
+    return -c*b*ABCCost.q(x, x_l, x_h, a)**(b-1)*((1 - a)/(x_h - x_l))
 
   @staticmethod
   def _hess(x, a, b, c, x_l, x_h):
     if x_l == x_h:
       return 0
-    return c*(b-1)*ABCCost.q(x, x_l, x_h, a)**(b-2)
+    return c*b*(b-1)*ABCCost.q(x, x_l, x_h, a)**(b-2)*((1 - a)/(x_h - x_l))**2
 
   @staticmethod
   def s(x, x_l, x_h):
